@@ -142,9 +142,7 @@ Definition exact : list (string * cls) := [
      Unreachable "every caller (add_transaction_if_validates, Blockchain::add_block_transactions_back) passes a transaction on which generate()/validate() has run, which sets hash_for_signature; debug builds only");
   ("consensus::mempool::Mempool::add_transaction#2-panic",
      LocalOnly "a GoldenTicket-typed transaction reaches add_transaction only through callers outside the peer path (wasm API, tests): the consensus thread routes such transactions to add_golden_ticket, add_block_transactions_back keeps Normal transactions only, the staking / issuance transactions are built locally");
-  ("consensus::mempool::Mempool::bundle_block#1-assert",
-     Known "future-timestamp-block-bundle-assert");
-  ("consensus::mempool::Mempool::bundle_block#2-unwrap",
+  ("consensus::mempool::Mempool::bundle_block#1-unwrap",
      LocalOnly "local configuration or start-up data (consensus configuration section, block files, issuance file, number of verification threads)");
   ("consensus::mempool::Mempool::bundle_genesis_block#1-unwrap",
      LocalOnly "local configuration or start-up data (consensus configuration section, block files, issuance file, number of verification threads)");
